@@ -59,6 +59,14 @@ def run(repo, chk):
         p = Q.escapes(g, [s], lambda n: n in updr)
         chk.ob('b', reg.ref, 'setting the parent is followed on every path by _updateRoot(parent.root)', p is None and bool(updr), loc(reg, s.ast),
                path=pat.path_lines(p, s) if p else None, discr='register:root-updated')
+    # a move — unregister() followed by register() before the unregistration has completed: the pending unregistration is completed first, so that its
+    # completion (which cuts "the" parent link) cannot hit the new parent later
+    comp_ = [n for n in g.nodes if n.kind == 'stmt' and any(r == 'self' for r, _c in pat.method_calls(n.ast, '_do_prepare_unregister_complete'))]
+    not_pending = pat.test_edge(lambda t, pol: pol == 'F' and src(t) in ('self.unregister_pending', 'self._unregister_pending'))
+    for a in addc + pstore:
+        q = Q.reachable_without(g, a, avoid_node=lambda n: n in comp_, avoid_edge=not_pending)
+        chk.ob('c', reg.ref, 'a component whose unregistration is still pending is not linked to a new parent before that unregistration has been completed', q is None,
+               loc(reg, a.ast), path=pat.path_lines(q) if q else None, discr='register:pending-completed-first')
     for a in addc:
         p = Q.escapes(g, [a], lambda n: n in fires, avoid_edge=self_reg_edge)       # (registerChild only runs when parent is not self: the same test cannot turn out otherwise later)
         chk.ob('c', reg.ref, 'a completed registration is announced by a registered event', p is None and bool(fires), loc(reg, a.ast),
@@ -104,8 +112,15 @@ def run(repo, chk):
     other = q.params[1]
     ext = [c for r, c in pat.method_calls(q.node, 'extend') if r == 'self._queue' and src(c.args[0]) == f'{other}._queue']
     clr = [c for r, c in pat.method_calls(q.node, 'clear') if r == f'{other}._queue']
-    chk.ob('d', q.ref, 'drainFrom moves (extends, then clears) the other queue\'s pending events', bool(ext) and bool(clr), loc(q, q.node),
-           discr='drainFrom')
+    # or entry by entry: `while other._queue: … other._queue.popleft() … self._queue.append(…)`
+    gq0 = q.cfg()
+    heads0 = [n for n in gq0.nodes if n.kind == 'test' and src(n.ast) in (f'{other}._queue', f'len({other}._queue)')]
+    pops0 = [n for n in gq0.nodes if n.kind == 'stmt' and any(r == f'{other}._queue' for r, _c in pat.method_calls(n.ast, 'popleft'))]
+    apps0 = [n for n in gq0.nodes if n.kind == 'stmt' and any(r == 'self._queue' for r, _c in pat.method_calls(n.ast, 'append'))]
+    one_by_one = bool(heads0) and bool(pops0) and all(Q.escapes(gq0, [p_], lambda n: n in apps0, exits=('exit',), extra_exit=lambda n: n in heads0) is None for p_ in pops0) and \
+        all(any(e.kind == 'F' for e in h_.succ) for h_ in heads0)
+    chk.ob('d', q.ref, 'drainFrom moves the other queue\'s pending events (all of them: extend + clear, or entry by entry until it is empty)', (bool(ext) and bool(clr)) or one_by_one,
+           loc(q, q.node), discr='drainFrom')
     # the component may register from one of its own handlers, i.e. while its queue is being flushed: the rest of the batch (the heap) is handed over as well,
     # and nothing in the hand-over can fail half-way (the caller has linked the component already)
     qcls = repo.cls(MANAGER, '_EventQueue')
@@ -121,6 +136,11 @@ def run(repo, chk):
     moved = [n for n in gq.nodes if n.kind == 'stmt' and any(src(c.args[0]).replace(' ', '') in (f'heappop({other}.{heap})',) for r, c in pat.method_calls(n.ast, 'append')
                                                              if r == 'self._queue' and c.args)] + \
             [n for n in gq.nodes if n.kind == 'stmt' and any(r == 'self._queue' and c.args and f'{other}.{heap}' in src(c.args[0]) for r, c in pat.method_calls(n.ast, 'extend'))]
+    # … or popped entry by entry and pushed / appended here
+    hp_ = [n for n in gq.nodes if n.kind == 'stmt' and any(call_name(c) == 'heappop' and c.args and src(c.args[0]) == f'{other}.{heap}' for c in calls_in(n.ast))]
+    put_ = [n for n in gq.nodes if n.kind == 'stmt' and (any(call_name(c) == 'heappush' and c.args and src(c.args[0]).startswith('self.') for c in calls_in(n.ast)) or
+                                                         any(r == 'self._queue' for r, _c in pat.method_calls(n.ast, 'append')))]
+    moved += [n for n in hp_ if any(Q.reaches(n, p_) for p_ in put_)]
     loops = [n for n in gq.nodes if n.kind == 'test' and src(n.ast) in (f'{other}.{heap}', f'len({other}.{heap})')]
     chk.ob('d', q.ref, 'the rest of a batch that the other queue is flushing right now moves too', bool(moved) and (bool(loops) or any('extend' in src(n.ast) for n in moved)),
            loc(q, q.node), discr='drainFrom:batch-moved')
